@@ -9,6 +9,17 @@ NOTE = ("Trusted base: Lean 4.33.0 kernel (axioms propext, Classical.choice, Quo
         "gcc and the sanitizers; the harness canonicalisation.")
 
 CLAIMED = {
+    'C01': ('refinement theorem over the Lsm model (under the invariant, the implementation\'s lookup order returns what a sorted map of all entries dictates; every contract-satisfying '
+            'flush/compaction/recovery step preserves the invariant and every protected view), with the hypotheses (stepOk, Inv) evaluated by lean tracecheck on every step of real histories '
+            'and every get recomputed from the model state and from the plain write history', 'Lean 4 proof + trace validation of real histories against the model', '7 C01'),
+    'C06': ('snapshot_view_stable / write_view / background_preserves_view theorems over the Lsm model; trace validation of histories with many live snapshots across compactions of every level',
+            'Lean 4 proof + trace validation of real histories against the model', '7 C06'),
+    'C07': ('cursor-over-sorted-map specification of the user iterator; every iterator step of real histories (direction changes, all seek kinds, snapshots, three comparators) must land where the '
+            'map cursor over the model state dictates; implementation-side iterator models and their refinement theorems', 'Lean 4 proof + trace validation of real histories against the model', '7 C07'),
+    'C13': ('keep-rule/live-set model: at every quiescent point the directory must contain exactly the live tables, the current log(s), one MANIFEST; every live file number below next_file_number',
+            'Lean 4 proof + trace validation of real histories against the model', '7 C13'),
+    'C14': ('Inv (sorted disjoint levels, file bounds, recency, distinct numbers) proved preserved by every contract-satisfying step; evaluated on every reconstructed version of real histories; '
+            'layout after reopen must equal the model\'s', 'Lean 4 proof + trace validation of real histories against the model', '7 C14'),
     'C04': ('batch byte format theorems (iterate∘encode, append, every proper prefix rejected) + exact differential correspondence of ldb_batch_* with the Lean model',
             'Lean 4 proof + model/implementation correspondence', '7 C04'),
     'C15': ('theorems over the Lean model of log_writer.c/log_reader.c/crc32c.c for all record lists, offsets and cut points (round trip, truncation, compositional reuse, CRC = bitwise CRC-32C, '
